@@ -86,6 +86,36 @@ Definition raw_export (ids idr : str -> N) (net : list rxn) (iso : list str) : r
                     | Product => RArc (idr (a_rxn a)) (ids (a_species a)) (Some Product) (Some (a_stoich a))
                     end) (bip_arcs net)).
 
+(** conversion._as_bipartite on an UNDIRECTED input (nx.Graph / nx.MultiGraph; since /repo a58b70a): a new DiGraph with the
+    same nodes; every undirected edge {u, v} is oriented by its role — the reaction end is the end whose node has
+    kind == "reaction" (or no kind and bipartite == 1; NOTE: not the rule of _split_species_reactions), role "product" gives
+    reaction -> species, anything else species -> reaction; a second incidence between the same ordered pair (multigraph)
+    adds its stoich (default 1 on both sides) to the first one, whose other attributes are kept *)
+Definition node_of (ns : list rnode) (u : N) : option rnode := find (fun n => N.eqb (rn_id n) u) ns.
+Definition u_is_rxn (ns : list rnode) (u : N) : bool :=
+  match node_of ns u with
+  | Some n => kind_is 1%nat n || (match rn_kind n with None => bflag_is 1%Z n | Some _ => false end)
+  | None => false
+  end.
+Definition same_arc (a b : N) (x : rarc) : bool := N.eqb (ra_u x) a && N.eqb (ra_v x) b.
+Definition st1 (o : option Z) : Z := match o with Some c => c | None => 1%Z end.
+Fixpoint merge_arc (a b : N) (c : option Z) (D : list rarc) : list rarc :=
+  match D with
+  | [] => []
+  | x :: D' => if same_arc a b x then RArc a b (ra_role x) (Some (st1 (ra_stoich x) + st1 c)%Z) :: D'
+               else x :: merge_arc a b c D'
+  end.
+Definition orient_pair (ns : list rnode) (e : rarc) : N * N :=
+  let sr := if u_is_rxn ns (ra_u e) then (ra_v e, ra_u e) else (ra_u e, ra_v e) in
+  match ra_role e with Some Product => (snd sr, fst sr) | _ => sr end.
+Definition orient_step (ns : list rnode) (D : list rarc) (e : rarc) : list rarc :=
+  let ab := orient_pair ns e in
+  if existsb (same_arc (fst ab) (snd ab)) D then merge_arc (fst ab) (snd ab) (ra_stoich e) D
+  else D ++ [RArc (fst ab) (snd ab) (ra_role e) (ra_stoich e)].
+Definition orient (ns : list rnode) (edges : list rarc) : list rarc := fold_left (orient_step ns) edges [].
+(** [rg_arcs U] = the undirected edges as networkx lists them (each once, in either orientation) *)
+Definition as_bipartite_undirected (U : rgraph) : rgraph := RG (rg_nodes U) (orient (rg_nodes U) (rg_arcs U)).
+
 (** observable: species labels in index order, complexes, arcs, classes, and the graph-only summary fields *)
 Definition run19_nodes (G : rgraph) : tok :=
   match complex_graph_nodes G with
